@@ -198,3 +198,141 @@ Example C18_example_ctx_reuse :
   last_obs (hrun_obs hinit [HWith [([114], [113])]; HCall 1 0 [([97], [1; 2])]; HCall 2 1 []]) =
   (Some (mkCallObs 1 true [([114], [113])]), [([114], [113])], []).
 Proof. split; vm_compute; reflexivity. Qed.
+
+(* ======================================================================================
+   Transport-level keys on the application-header map.
+   The caller's tracer serialises its span context INTO the thrift / JSON arg2 header map
+   (tracing.go InjectOutboundSpan -> tracingHeadersCarrier.Set: key "$tracing$" ++ k), the callee
+   hides those entries again before it builds the handler's context (ExtractInboundSpan ->
+   RemoveTracingKeys).  Model/TraceHdr.v is the code; header maps are canonical association lists
+   (ksorted = strictly ascending keys = what canon_map produces, C18_trace_canonical);
+   app_key kv = the key does NOT start with the prefix;  sets = the pairs the caller's tracer
+   passes to carrier.Set (ANY list: any tracer); has_span / nonnil / the callee's tracer: any.
+   ====================================================================================== *)
+From Verif Require Import Base.GoStrMap Gen.GenConsts Gen.GenTraceHdr Model.TraceHdr Proofs.StrMapP Proofs.TraceHdrP.
+
+Theorem C18_trace_canonical : forall l, canon_map l = l <-> ksorted l.
+Proof. exact (fun l => conj (canon_fix_sorted l) (canon_map_fix l)). Qed.
+
+(* RemoveTracingKeys, in whatever order the range loop visits the keys of the map: what is left
+   are exactly the entries whose key does not have the prefix *)
+Theorem C18_trace_strip_any_order : forall order c,
+  (forall kv, In kv c -> In (fst kv) order) -> strip_in order c = filter app_key c.
+Proof. exact strip_any_order. Qed.
+
+(* InjectOutboundSpan leaves the application's own entries as they are, whatever the tracer injects *)
+Theorem C18_trace_inject_keeps_app : forall has_span sets m, ksorted m ->
+  filter app_key (inject_outbound has_span sets m) = filter app_key m.
+Proof. exact inject_outbound_app. Qed.
+
+(* ... and the order in which its merge loop ranges over the caller's map does not matter *)
+Theorem C18_trace_inject_any_order : forall order has_span sets m, ksorted m -> Permutation.Permutation order m ->
+  inject_outbound_in order has_span sets m = inject_outbound has_span sets m.
+Proof. exact inject_outbound_any_order. Qed.
+
+(* the request path: the map the handler's context is built from = the caller's map without the
+   entries whose key has the prefix -- for every tracer on the caller's side (has_span, sets) and
+   independently of the callee's tracer (the result of tracer.Extract and the branch of
+   ExtractInboundSpan do not occur: C18_trace_generated shows that the code has no such dependency) *)
+Theorem C18_trace_extract_inject : forall has_span sets nonnil m, ksorted m ->
+  (nonnil = false -> inject_outbound has_span sets m = []) ->
+  extract_inbound nonnil (inject_outbound has_span sets m) = filter app_key m.
+Proof. exact extract_inject. Qed.
+
+(* application headers without the prefix reach the handler EXACTLY ... *)
+Theorem C18_trace_exact : forall has_span sets nonnil m, ksorted m -> no_reserved m ->
+  (nonnil = false -> inject_outbound has_span sets m = []) ->
+  extract_inbound nonnil (inject_outbound has_span sets m) = m.
+Proof. exact extract_inject_exact. Qed.
+
+(* ... and the clause "exactly" is REFUTED for application keys that themselves start with the
+   prefix (known finding c18:reserved-tracing-prefix): they never reach the handler, with or
+   without tracers.  The prefix is a reserved name space of the header map. *)
+Theorem C18_trace_reserved_refuted :
+  exists m, ksorted m /\ kvs16_ok m /\ extract_inbound true (inject_outbound true [] m) <> m.
+Proof. exact extract_inject_reserved_refuted. Qed.
+
+(* the calls of the header-slot model (the C18_ctx theorems) with the tracing layer in the request path:
+   under ANY tracer configuration a call does to the context and shows to the handler what the
+   model without tracers does (the size limits now count the injected entries too) *)
+Theorem C18_trace_call_transparent : forall t nonnil c kind outcome resp,
+  hmap_ok (s_req c) -> no_reserved (s_req c) ->
+  kvs16_ok (inject_outbound (t_span t) (t_sets t) (s_req c)) ->
+  (nonnil = false -> inject_outbound (t_span t) (t_sets t) (s_req c) = []) ->
+  do_call_tr t nonnil c kind outcome resp = do_call c kind outcome resp.
+Proof. exact do_call_tr_transparent. Qed.
+
+(* the harness entry point `tracehdr` computes "the caller's map without the keys that have the
+   prefix": an implementation that disagrees with it on a generated case violates that *)
+Theorem C18_trace_run_is_spec : forall c kind hs sets m r1 r2 r3 r4,
+  take1 c = (kind, r1) -> take1 r1 = (hs, r2) ->
+  take_list take_kv r2 = (sets, r3) -> take_list take_kv r3 = (m, r4) ->
+  ksorted m -> kvs16_ok (inject_outbound (bz hs) sets m) ->
+  run_tracehdr c = put_list put_kv (filter app_key m).
+Proof. exact run_tracehdr_spec. Qed.
+
+(* the key cache of tracing_keys.go returns the mapper's value (cache = m.mapping under the read
+   lock, cache' under the write lock), and the decoder's slice expression is in range on every key
+   that passes the guard of ForeachKey *)
+Theorem C18_trace_key_cache : forall mapper cache cache' key,
+  cache_sound mapper cache -> cache_sound mapper cache' ->
+  snd (map_and_cache mapper cache cache' key) = mapper key /\
+  cache_sound mapper (fst (map_and_cache mapper cache cache' key)).
+Proof. exact map_and_cache_spec. Qed.
+Theorem C18_trace_decode_in_range : forall k, reserved k = true ->
+  exists r, k = encode_key r /\ decode_key k = Some r.
+Proof. exact decode_reserved. Qed.
+
+(* REGENERATED from the source on every run (go2v/tracetargets.go, Gen/GenTraceHdr.v) and proved
+   equal to the model: the two key mappers, both halves of mapAndCache, carrier.Set, one iteration
+   of the loops of RemoveTracingKeys / ForeachKey / InjectOutboundSpan and the statements around
+   the latter, the WHOLE of ExtractInboundSpan -- for every value of has_span / nonnil /
+   extract_ok and every function `strip'` in the place of carrier.RemoveTracingKeys() the result
+   is `strip' h` whenever the map is not nil: the call stands on every path -- and the four call
+   sites (thrift writeArgs / json makeCall write inject(headers); thrift server.handle / json
+   handler.Handle build the handler's context from extract(decoded map)). *)
+Theorem C18_trace_generated :
+  (forall k, traceEncodeKey k = encode_key k) /\
+  (forall k, traceDecodeKey k = decode_key k) /\
+  (forall mapper cache cache' key,
+     match mapAndCacheFast cache key with
+     | Some v => (cache, v)
+     | None => mapAndCacheSlow mapper cache' key
+     end = map_and_cache mapper cache cache' key) /\
+  (forall c k v, carrierSet c k v = carrier_set c k v) /\
+  (forall c key, removeKeyStep c key = strip_step c key) /\
+  (forall k, foreachKeyVisits k = foreach_visits k) /\
+  (forall order has_span sets headers,
+     match injectHead has_span sets headers with
+     | inl r => r
+     | inr nh => injectTail headers (fold_left (fun nh kv => injectMergeStep nh (fst kv) (snd kv)) order nh)
+     end = inject_outbound_in order has_span sets headers) /\
+  (forall (strip' : kvs -> kvs) has_span nonnil extract_ok h,
+     extractInboundHeaders strip' has_span nonnil extract_ok h = if nonnil then strip' h else h) /\
+  (forall has_span nonnil extract_ok h,
+     extractInboundHeaders strip has_span nonnil extract_ok h = extract_inbound nonnil h) /\
+  (forall (inj : kvs -> kvs) h, thriftWrittenHeaders inj h = inj h) /\
+  (forall (inj : kvs -> kvs) is_map h, jsonWrittenHeaders inj is_map h = if is_map then inj h else h) /\
+  (forall (ex : kvs -> kvs) h, thriftHandlerHeaders ex h = ex h) /\
+  (forall (ex : kvs -> kvs) h, jsonHandlerHeaders ex h = ex h).
+Proof. exact tracehdr_generated. Qed.
+
+Print Assumptions C18_trace_extract_inject.
+Print Assumptions C18_trace_exact.
+Print Assumptions C18_trace_reserved_refuted.
+Print Assumptions C18_trace_call_transparent.
+Print Assumptions C18_trace_run_is_spec.
+Print Assumptions C18_trace_generated.
+
+(* non-vacuity: the seed's scenario -- the caller's tracer injects two ids and a baggage item, the
+   application attached {"hdr": "value", "other": ""} -- the wire map has five entries, the handler
+   sees the two; and an application key with the prefix is dropped *)
+Example C18_example_trace :
+  let m := [([104; 100; 114], [118; 97; 108; 117; 101]); ([111; 116; 104; 101; 114], [])] in
+  let sets := [([97; 45; 116], [49]); ([97; 45; 115], [50]); ([98], [51])] in
+  ksorted m /\ no_reserved m /\
+  zlen (inject_outbound true sets m) = 5 /\
+  extract_inbound true (inject_outbound true sets m) = m /\
+  seen_thrift (mkT true sets false false) m = Some m /\
+  seen_thrift (mkT true sets false false) ((c_tracingKeyPrefix ++ [120], [49]) :: m) = Some m.
+Proof. vm_compute. repeat split; reflexivity. Qed.
